@@ -36,6 +36,9 @@ TEMPLATES = {
     "nested_in_tuple": ("    assert (x0, x1, x2) == snapshot((c1, snapshot(c0)))\n", ["x0", "x1", "x2", "c0", "c1"]),
     "nested_in_dataclass": ("    assert P(a=x0, b=x1) == snapshot(P(a=snapshot(c0), b=c1))\n", ["x0", "x1", "c0", "c1"]),
     "is_in_list_longer": ("    assert [x0, x1, x2] == snapshot([Is(c0), c1])\n", ["x0", "x1", "x2", "c0", "c1"]),
+    "unicode_dict_delete": ("    assert {'ä': x0} == snapshot({'ä': c0, 'b': c1})\n", ["x0", "c0", "c1"]),
+    "unicode_before_nested": ("    assert ('é€', x0, [x1]) == ('é€', snapshot(c0), snapshot([c1, c2]))\n", ["x0", "x1", "c0", "c1", "c2"]),
+    "unicode_list_mixed": ("    a = 'äöü'; assert [x0, x1, 'ß'] == snapshot([c0, 'ß', c1]); b = '✓'\n", ["x0", "x1", "c0", "c1"]),
     "bound_compare_raises": ("    assert 'a' <= snapshot(c0)\n", ["c0"]),
     "bound_compare_raises_second": ("    for x in [x0, 'a']:\n        assert x <= snapshot(c0)\n", ["x0", "c0"]),
     "getitem_is_value_loop": ("    for i in [x0, x0]:\n        assert snapshot({1: Is(i)})[1] == i\n", ["x0"]),
